@@ -71,3 +71,8 @@ PEPTIDES = ["PEPTIDEK", "AAAK", "AAAR", "LLLK", "MMMR", "GGGK", "CCCK", "DDDR", 
 
 def peptide_name(rng, n=20):
     return rng.choice(PEPTIDES[:n])
+
+
+def norm(x) -> str:
+    """the exact rational of the double nearest to x (so a case value IS the float the code sees)"""
+    return fr(float(Fraction(x)))
